@@ -13,35 +13,62 @@ import (
 
 // timedExtra: PopWait with a POSITIVE duration on the unmodified package under the real
 // clock.  The ticker path cannot be driven by the deterministic scheduler, but its
-// conservation clause (Lean: c11_popwait_timed) has a verdict that does not depend on
-// timing: in every round exactly one value is pushed onto an empty list while one
-// PopWait(d) is running; when both have returned, either PopWait returned (v, true) with
-// v the pushed value and the list is empty, or it returned false and the value is still
-// in the list (Len() == 1, Pop returns it).  Anything else is a violation.  Timing only
-// decides how often the interesting window — the Pop on the tick that also observes the
-// deadline succeeds — is hit; the hit count is reported in the evidence.
+// conservation AND order clauses (Lean: c11_popwait_timed, c11_lin_fifo) have a verdict
+// that does not depend on timing: in every round ONE goroutine pushes 1–4 tagged values in
+// order onto an empty list while ONE PopWait(d) is running; when both have returned the
+// list is drained with Pop.  The pushes are sequential in one goroutine (their order is
+// their real-time order) and there is a single popper, so the only legal outcome is
+//     (value PopWait returned with true, if any) ++ drained  ==  pushed, in push order
+// — a PopWait that times out has consumed nothing and has not rotated the queue — with
+// Len() equal to the number of drained values, and ordinary calls afterwards behave as on
+// a fresh list.  Timing only decides how often the interesting windows are hit (the Pop on
+// the tick that also observes the deadline succeeds; … while further values are already
+// queued behind it); the hit counts are reported in the evidence.
 //
 // Rounds sweep d ∈ {15, 25, 35} ms and the push instant over [T-10ms, T+1ms] where
 // T = the tick on which the deadline is observed (10 ms ticker); many rounds run in
 // parallel on separate lists (they sleep, they do not compute).
 
 type timedRound struct {
-	DurMs      int     `json:"popwait_ms"`
-	PushAtMs   float64 `json:"push_after_ms"`
-	Value      int     `json:"pushed_value"`
-	RetValue   int     `json:"popwait_value"`
-	RetOK      bool    `json:"popwait_ok"`
-	ElapsedMs  float64 `json:"popwait_elapsed_ms"`
-	LenAfter   int     `json:"len_after"`
-	PopAfter   int     `json:"pop_after_value"`
-	PopAfterOK bool    `json:"pop_after_ok"`
+	DurMs     int     `json:"popwait_ms"`
+	PushAtMs  float64 `json:"push_after_ms"`
+	Pushed    []int   `json:"pushed_values_in_order"`
+	RetValue  int     `json:"popwait_value"`
+	RetOK     bool    `json:"popwait_ok"`
+	ElapsedMs float64 `json:"popwait_elapsed_ms"`
+	LenAfter  int     `json:"len_after"`
+	Drained   []int   `json:"drained_by_pop_after"`
+	Fresh     string  `json:"push_len_pop_after_drain"`
 }
 
-// one round; returns the observation and "" or the violation key
-func runTimedRound(durMs int, pushAt time.Duration, val int) (timedRound, string, string) {
+func sameMultiset(a, b []int) bool {
+	if len(a) != len(b) {
+		return false
+	}
+	m := map[int]int{}
+	for _, x := range a {
+		m[x]++
+	}
+	for _, x := range b {
+		m[x]--
+	}
+	for _, c := range m {
+		if c != 0 {
+			return false
+		}
+	}
+	return true
+}
+
+// one round: PopWait(d) on an empty list while ONE goroutine pushes `vals` in order,
+// starting at pushAt.  When both returned: Len(), drain with Pop, then Push/Len/Pop on
+// the drained list (ordinary calls after an expiry behave as on a fresh list).
+// Pushes come from one goroutine, so their order is their real-time order; there is one
+// popper, so the only legal outcomes are  (value returned with true) ++ drained == vals.
+func runTimedRound(durMs int, pushAt time.Duration, vals []int) (timedRound, string, string) {
 	l := listz.NewSync[int]()
 	d := time.Duration(durMs) * time.Millisecond
-	r := timedRound{DurMs: durMs, PushAtMs: float64(pushAt) / 1e6, Value: val}
+	r := timedRound{DurMs: durMs, PushAtMs: float64(pushAt) / 1e6, Pushed: vals}
 	var wg sync.WaitGroup
 	wg.Add(2)
 	start := time.Now()
@@ -59,24 +86,54 @@ func runTimedRound(durMs int, pushAt time.Duration, val int) (timedRound, string
 		}
 		for time.Since(start) < pushAt {
 		}
-		l.Push(val)
+		for _, v := range vals {
+			l.Push(v)
+		}
 	}()
 	wg.Wait()
 	r.LenAfter = l.Len()
-	r.PopAfter, r.PopAfterOK = l.Pop()
+	r.Drained = []int{}
+	for k := 0; k < len(vals)+4; k++ {
+		v, ok := l.Pop()
+		if !ok {
+			break
+		}
+		r.Drained = append(r.Drained, v)
+	}
+	got := append([]int{}, r.Drained...)
+	if r.RetOK {
+		got = append([]int{r.RetValue}, got...)
+	}
+	what := fmt.Sprintf("PopWait(%dms) on an empty list returned (%d, %v) while one goroutine pushed %v starting at +%.1fms; afterwards Len() == %d and Pop drained %v", durMs, r.RetValue, r.RetOK, vals, r.PushAtMs, r.LenAfter, r.Drained)
 	switch {
-	case r.RetOK && r.RetValue != val:
-		return r, "popwait-wrong-value", fmt.Sprintf("PopWait(%dms) returned (%d, true) but the only value ever pushed is %d", durMs, r.RetValue, val)
-	case r.RetOK && (r.LenAfter != 0 || r.PopAfterOK):
-		return r, "popwait-duplicated-value", fmt.Sprintf("PopWait(%dms) returned (%d, true) and afterwards Len() == %d, Pop() == (%d, %v): the single pushed value was delivered and is still stored", durMs, r.RetValue, r.LenAfter, r.PopAfter, r.PopAfterOK)
-	case !r.RetOK && (r.LenAfter != 1 || !r.PopAfterOK || r.PopAfter != val):
-		return r, "popwait-lost-value", fmt.Sprintf("PopWait(%dms) on an empty list returned false (timeout) while Push(%d) ran at +%.1fms; afterwards Len() == %d and Pop() == (%d, %v): the pushed value was neither delivered nor left in the list", durMs, val, r.PushAtMs, r.LenAfter, r.PopAfter, r.PopAfterOK)
+	case r.LenAfter != len(r.Drained):
+		return r, "popwait-len-after", what + ": Len() differs from the number of stored values with no operation in flight"
+	case len(got) < len(vals):
+		return r, "popwait-lost-value", what + ": a pushed value was neither delivered nor left in the list"
+	case len(got) > len(vals):
+		return r, "popwait-duplicated-value", what + ": more values came out than were pushed"
+	case !sameMultiset(got, vals):
+		return r, "popwait-wrong-value", what + ": a value that was never pushed came out"
+	}
+	for k := range vals {
+		if got[k] != vals[k] {
+			return r, "popwait-order", what + fmt.Sprintf(": FIFO order broken — values came out as %v, pushed as %v (a PopWait that times out must not rotate the queue)", got, vals)
+		}
+	}
+	// ordinary calls after the (possibly expired) PopWait: as on a fresh list
+	l.Push(-7)
+	n := l.Len()
+	v, ok := l.Pop()
+	_, ok2 := l.Pop()
+	r.Fresh = fmt.Sprintf("Push(-7); Len()=%d; Pop()=(%d,%v); Pop() ok=%v", n, v, ok, ok2)
+	if n != 1 || !ok || v != -7 || ok2 {
+		return r, "popwait-after-expiry", what + "; then on the drained list " + r.Fresh
 	}
 	return r, "", ""
 }
 
 var timedExtra = core.Extra{
-	Name: "PopWait(d>0) conservation under the real clock (unmodified listz package)",
+	Name: "PopWait(d>0) conservation and FIFO order under the real clock (unmodified listz package)",
 	Run: func(ctx *core.Ctx) (int, string, []core.ExtraFailure) {
 		budget := 2500 * time.Millisecond
 		par := 96
@@ -86,12 +143,15 @@ var timedExtra = core.Extra{
 		type job struct {
 			dur    int
 			pushAt time.Duration
+			n      int
 		}
 		var jobs []job
 		for _, d := range []int{15, 25, 35} {
 			tick := ((d + 9) / 10) * 10 // the tick on which elapsed >= d is observed
 			for off := -100; off <= 10; off += 5 { // push at T-10.0 … T+1.0 ms, 0.5 ms steps
-				jobs = append(jobs, job{d, time.Duration(tick)*time.Millisecond + time.Duration(off)*100*time.Microsecond})
+				for n := 1; n <= 4; n++ {
+					jobs = append(jobs, job{d, time.Duration(tick)*time.Millisecond + time.Duration(off)*100*time.Microsecond, n})
+				}
 			}
 		}
 		var (
@@ -102,6 +162,7 @@ var timedExtra = core.Extra{
 			hits      atomic.Int64 // delivered by the Pop of the expiry tick (elapsed >= d and ok)
 			timeouts  atomic.Int64
 			delivered atomic.Int64
+			hitsMulti atomic.Int64 // … with further values already queued behind it (order window)
 		)
 		deadline := time.Now().Add(budget)
 		var wg sync.WaitGroup
@@ -113,12 +174,19 @@ var timedExtra = core.Extra{
 				for time.Now().Before(deadline) {
 					k := int(next.Add(1) - 1)
 					j := jobs[k%len(jobs)]
-					r, key, desc := runTimedRound(j.dur, j.pushAt, 1000+k)
+					vals := make([]int, j.n)
+					for q := range vals {
+						vals[q] = 10*(1000+k) + q
+					}
+					r, key, desc := runTimedRound(j.dur, j.pushAt, vals)
 					rounds.Add(1)
 					if r.RetOK {
 						delivered.Add(1)
 						if r.ElapsedMs >= float64(j.dur) {
 							hits.Add(1)
+							if j.n >= 2 && len(r.Drained) >= 1 {
+								hitsMulti.Add(1)
+							}
 						}
 					} else {
 						timeouts.Add(1)
@@ -130,7 +198,7 @@ var timedExtra = core.Extra{
 							fails = append(fails, core.ExtraFailure{
 								Failure: core.Failure{Key: key, Desc: desc},
 								Payload: map[string]any{
-									"how":   "l := listz.NewSync[int](); go l.PopWait(popwait_ms * time.Millisecond); after push_after_ms: l.Push(pushed_value); when both returned: Len(), Pop()",
+									"how":   "l := listz.NewSync[int](); go l.PopWait(popwait_ms * time.Millisecond); after push_after_ms one goroutine does l.Push(v) for v in pushed_values_in_order; when both returned: Len(), Pop() until false",
 									"round": r,
 								}})
 						}
@@ -143,8 +211,8 @@ var timedExtra = core.Extra{
 			}(w)
 		}
 		wg.Wait()
-		note := fmt.Sprintf("%d rounds (d in 15/25/35 ms, push swept over the last tick interval): %d delivered, %d timed out with the value still stored; deadline-tick window hit %d times (delivered with elapsed >= d); verdict independent of timing",
-			rounds.Load(), delivered.Load(), timeouts.Load(), hits.Load())
+		note := fmt.Sprintf("%d rounds (d in 15/25/35 ms, 1-4 tagged values pushed by one goroutine, start swept over the last tick interval; check: returned value ++ drained == push order, Len, ordinary calls afterwards): %d delivered, %d timed out; deadline-tick window hit %d times (delivered with elapsed >= d), %d of them with more values queued behind (order window); verdict independent of timing",
+			rounds.Load(), delivered.Load(), timeouts.Load(), hits.Load(), hitsMulti.Load())
 		return int(rounds.Load()), note, fails
 	},
 }
